@@ -337,6 +337,15 @@ func runC43(w *World, r *Report) {
 							if ia, ok := st.Addr.(*ssa.IndexAddr); ok && ia.X == sl.X {
 								if s, isC := constString(st.Val); isC {
 									ops = append(ops, s)
+								} else if phi, isPhi := st.Val.(*ssa.Phi); isPhi {
+									// a permission chosen among constants: every alternative is judged
+									for _, e := range phi.Edges {
+										if s, isC := constString(e); isC {
+											ops = append(ops, s)
+										} else {
+											dynamic = true
+										}
+									}
 								} else {
 									dynamic = true
 								}
